@@ -180,6 +180,20 @@ pub fn generate(rng: &mut Rng, prop: Prop) -> Scenario {
             s.push(Item::new("reset"));
         }
     }
+    if rng.chance(1, 25) {
+        // announce-lie: a short first fragment announcing a message of up to 16 MiB, then ordinary traffic
+        let mut first = vec![*rng.pick(&[0x0bu8, 0x01, 0x14, 0x02]), *rng.pick(&[0xffu8, 0xc0, 0xa1, 0x80]), rng.u8(), rng.u8()];
+        let n = rng.small_len(40);
+        first.extend(rng.bytes(n));
+        s.push(Item::new("rec").int("type", 22).int("ver", 0x0303).bytes("data", &first).int("_lie", 1));
+        for _ in 0..rng.urange(0, 3) {
+            let n = rng.small_len(200);
+            s.push(Item::new("rec").int("type", 22).int("ver", 0x0303).bytes("data", &rng.bytes(n)));
+        }
+        if rng.chance(1, 2) {
+            s.push(Item::new("reset"));
+        }
+    }
     if f_oversize {
         // an unfinished handshake message fed until the 10 MiB bound, then some more
         let mut first = vec![0x0b, 0xff, 0xff, 0xff];
@@ -308,6 +322,9 @@ pub fn execute(scn: &Scenario, ctx: &mut Ctx) {
         if reps > 1 {
             ctx.fault("oversize-stream");
         }
+        if it.has("_lie") {
+            ctx.fault("announce-lie");
+        }
         for _ in 0..reps {
             recs_seen += 1;
             if recs_seen >= 2 {
@@ -400,8 +417,10 @@ pub fn execute(scn: &Scenario, ctx: &mut Ctx) {
             // ---- the real call
             let mut sl = Slices::new();
             let entry = if nocopy { "TlsRecordsParser::parse_record_nocopy" } else { "TlsRecordsParser::parse_record" };
-            let extra = 3 * MAX_DATA;
             let ilen = record.data.len() + before_len;
+            // retained-state allowance: the documented 10 MiB buffer, or (near the cap) the
+            // transient old+new copies of amortised Vec doubling, whichever is larger
+            let extra = MAX_DATA.max(2 * ilen);
             let rec2 = record.clone();
             let got = if nocopy {
                 ctx.call(entry, ilen, extra, || summarize(parser.parse_record_nocopy(rec2), &mut sl))
